@@ -171,6 +171,50 @@ func TestC17(t *testing.T) {
 	for i := range present {
 		present[i] = map[string]bool{}
 	}
+	if env.Shards <= 1 {
+		// exhaustive: every optional metric x every value, alone (others omitted) and with every other
+		// optional metric defined: the shapes that expose a lenVec branch of a single metric/value
+		var singles []AllocCase
+		for vi, v := range spec.Versions {
+			for _, m := range v.Optional() {
+				for _, val := range m.Vals[1:] {
+					for _, full := range []bool{false, true} {
+						a := spec.Assignment{}
+						var written []string
+						for _, x := range v.Metrics {
+							switch {
+							case x.Mandatory:
+								a[x.Abv] = x.Vals[0]
+								written = append(written, x.Abv)
+							case x.Abv == m.Abv:
+								a[x.Abv] = val
+								written = append(written, x.Abv)
+							case full || v.Name == "2.0" && x.Group == m.Group:
+								if full {
+									a[x.Abv] = x.Vals[len(x.Vals)-1]
+								} else {
+									a[x.Abv] = v.ND
+								}
+								written = append(written, x.Abv)
+							default:
+								a[x.Abv] = v.ND
+							}
+						}
+						singles = append(singles, AllocCase{V: gen.Valid{Ver: vi, S: spec.Spell(v, a, written), A: a, Written: written, Layout: "single"}, Metric: m.Abv, Bad: "zz"})
+					}
+				}
+			}
+		}
+		if !doReplay(h, "allocs", checkAllocs) {
+			for _, c := range singles {
+				if err := safely(checkAllocs, c); err != nil {
+					h.fail("allocs", c, err)
+				}
+			}
+			h.R.AddExact(int64(len(singles)), int64(len(singles)))
+			h.R.Count("exhaustive: each optional metric x each value, alone and with all other optional metrics defined", int64(len(singles)))
+		}
+	}
 	for vi := range spec.Versions {
 		vi := vi
 		v := spec.Versions[vi]
